@@ -728,6 +728,38 @@ func RunPackTrees(id, tier string) int {
 		})
 		rep.States += len(bjobs)
 		planStats = append(planStats, map[string]any{"set": "files above 1 MiB", "runs": len(bjobs)})
+		// an ordinary user meets something unreadable part-way through the walk (in the tree, or inside a
+		// dereferenced outside directory after entries of it were already written): Pack may refuse, but
+		// a Pack that reports success must return Meta matching the slug
+		lockedTrees := [][]TNode{
+			{{Path: "src/main.tf", Kind: "file", Body: "m"}, {Path: "src/shared", Kind: "link", Target: "../out/shared"}, {Path: "out/shared/a.txt", Kind: "file", Body: "aaaa"}, {Path: "out/shared/zlocked/x", Kind: "file", Body: "x"}, {Path: "out/shared/zlocked", Kind: "dir", Mode: -1}},
+			{{Path: "src/main.tf", Kind: "file", Body: "m"}, {Path: "src/shared", Kind: "link", Target: "../out/shared"}, {Path: "out/shared/a.txt", Kind: "file", Body: "aaaa"}, {Path: "out/shared/zfile", Kind: "file", Body: "zz", Mode: -1}},
+			{{Path: "src/a", Kind: "file", Body: "aaaa"}, {Path: "src/zlocked/x", Kind: "file", Body: "x"}, {Path: "src/zlocked", Kind: "dir", Mode: -1}},
+			{{Path: "src/a", Kind: "file", Body: "aaaa"}, {Path: "src/zfile", Kind: "file", Body: "zz", Mode: -1}},
+			{{Path: "src/d/l", Kind: "link", Target: "../../out/shared"}, {Path: "src/z", Kind: "file", Body: "z"}, {Path: "out/shared/a.txt", Kind: "file", Body: "aaaa"}, {Path: "out/shared/b/c", Kind: "file", Body: "c"}, {Path: "out/shared/b", Kind: "dir", Mode: -1}},
+			{{Path: "src/l", Kind: "link", Target: "../out/locked"}, {Path: "src/z", Kind: "file", Body: "z"}, {Path: "out/locked/x", Kind: "file", Body: "x"}, {Path: "out/locked", Kind: "dir", Mode: -1}},
+		}
+		var ljobs []PackArg
+		for _, t := range lockedTrees {
+			for _, de := range []bool{false, true} {
+				for _, ig := range []bool{false, true} {
+					for _, ao := range []bool{false, true} { // an allow-listed target is stored as a link, any other is copied when dereferencing
+						ljobs = append(ljobs, PackArg{Nodes: t, Deref: de, Ignore: ig, AllowOut: ao, NoTrees: true, UID: 65534})
+					}
+				}
+			}
+		}
+		lok := 0
+		pool(65534).Map("pack", len(ljobs), func(i int) any { return ljobs[i] }, func(i int, r core.Result) {
+			var out PackOut
+			core.MustOut(r, &out)
+			if out.Err == "" {
+				lok++
+			}
+			judge(ljobs[i], out, packOpt{Deref: ljobs[i].Deref, Ignore: ljobs[i].Ignore, AllowOut: ljobs[i].AllowOut, UID: 65534})
+		})
+		rep.States += len(ljobs)
+		planStats = append(planStats, map[string]any{"set": "unreadable entries met part-way, uid 65534", "runs": len(ljobs), "pack_succeeded": lok})
 		// E2: the tree changes while Pack runs. One deviation per run: at the k-th call of
 		// the output writer one regular file is cut or extended. Whenever Pack still
 		// reports success, the returned Meta must describe the slug it wrote.
@@ -794,7 +826,7 @@ func RunPackTrees(id, tier string) int {
 	case "C02":
 		rep.Rule = "every tree of <=k nodes over a 26-node alphabet (names: long, non-ASCII, space, dot, dash; empty file/dir; links sibling/parent/dir/dangling/chained; fifo; .git/.terraform content) × {ignore,deref} × {root,uid 65534}, plus single/double attribute deviations (modes 0000-0777, mtime fractions); real Pack then real Unpack; recursive comparison of source and unpacked tree. Non-trivial = pack succeeded and trees were compared; distinct by decoded slug."
 	case "C20":
-		rep.Rule = "C02 trees ∪ C05 trees × option sets; returned Meta compared with an independent decode of the slug. Non-trivial = pack succeeded; distinct by decoded slug. Plus E2: on 5 trees (one with a 300 kB incompressible file so that output is written while it is read) one regular file is resized to {0,1,7,400000} bytes at every call of the output writer (quick: calls 1-8 and every 64th); a Pack that still succeeds must return matching Meta."
+		rep.Rule = "C02 trees ∪ C05 trees × option sets; returned Meta compared with an independent decode of the slug. Non-trivial = pack succeeded; distinct by decoded slug. Plus E2: on 5 trees (one with a 300 kB incompressible file so that output is written while it is read) one regular file is resized to {0,1,7,400000} bytes at every call of the output writer (quick: calls 1-8 and every 64th); a Pack that still succeeds must return matching Meta. Plus 6 trees with an unreadable directory or file met part-way through the walk (in the tree and inside a dereferenced outside directory) packed as uid 65534."
 	case "C05":
 		rep.Rule = "fixed skeleton (content of every file = its own path, so provenance is readable from the bytes) + every set of <=k links over 33 (position,target) pairs × {deref} × {allow-list} × {ignore}; oracles: provenance of every regular entry, no stored link that physically resolves outside, relative link entries stay inside the archive root, Unpack accepts the result, out-of-tree link without deref ⇒ IllegalSlugError."
 	}
